@@ -568,11 +568,11 @@ static std::vector<char> assemble_eb(const vrt::J &row, int natt) {
   // natt = 0: a stream without any attribute decoder -- nothing after the connectivity can refuse what the connectivity decoder accepted
   if (natt == 0) { b.Encode((uint8_t)0); return std::vector<char>(b.data(), b.data() + b.size()); }
   b.Encode((uint8_t)1);
-  b.Encode((int8_t)-1); b.Encode((uint8_t)0); b.Encode((uint8_t)0);
+  b.Encode((int8_t)-1); b.Encode((uint8_t)0); b.Encode((uint8_t)(natt == 6 ? 1 : 0));     // natt = 6: the prediction-degree traversal orders the values
   EncodeVarint<uint32_t>(1, &b);
   b.Encode((uint8_t)0); b.Encode((uint8_t)5); b.Encode((uint8_t)3); b.Encode((uint8_t)0); EncodeVarint<uint32_t>(0, &b);
   b.Encode((uint8_t)1);
-  if (natt >= 3) {
+  if (natt >= 3 && natt <= 5) {
     // constrained multi-parallelogram (method 4) under the wrap transform: corrections, then per parallelogram count a list of crease flags (as many as the
     // model's decoder consumes, served by pattern natt - 3: all clear / all set / alternating), then the bounds
     const int pat = natt - 3;
@@ -658,9 +658,10 @@ static void probe_eb(const vrt::J &row, long index, EbStats *st) {
   const std::string &pred = row["out"].s;
   // every row twice: with the position attribute (natt = 1) and without any attribute decoder (natt = 0); the header-only rows and the valence
   // rows that the oracle skipped are probed once
-  for (int natt = 5; natt >= 0; --natt) {
+  for (int natt = 6; natt >= 0; --natt) {
+    if (natt == 6 && (!row.has("vidx2") || row["vidx2"].a.empty())) continue;   // raw values in the order of the prediction-degree traversal
     if (natt == 2 && row["ppos"].a.empty()) continue;   // the parallelogram form: rows for which the model predicts positions
-    if (natt >= 3 && (row["cm"].a.size() != 3 || !row["cm"][natt - 3]["err"].s.empty())) continue;   // constrained multi-parallelogram, three flag patterns
+    if (natt >= 3 && natt <= 5 && (row["cm"].a.size() != 3 || !row["cm"][natt - 3]["err"].s.empty())) continue;   // constrained multi-parallelogram, three flag patterns
     const bool kd = row["mode"].s == "kd";
     const bool ia = row["mode"].s == "ia";
     if (natt == 0 && (row["mode"].s == "lkd" || row["mode"].s == "lkq" || kd || ia)) continue;  // the kd-tree rows have one form only
@@ -685,8 +686,8 @@ static void probe_eb(const vrt::J &row, long index, EbStats *st) {
     out.begin("EbProbe").i("row", index).s("mode", row["mode"].s.empty() ? "std" : row["mode"].s).i("natt", natt).s("s", row["s"].s).i("nv", row["nv"].n).i("nf", row["nf"].n).i("nss", row["nss"].n)
         .s("pred", pred).s("pk", pred.substr(0, pred.find(':'))).i("pred_np", row["np"].n)
         .arr("pred_faces", row["faces"].ints()).b("ok", d.ok).b("modified", modified).b("bad_alloc", tolerated_bad_alloc)
-        .arr("vidx", eb_vidx(d, natt, kd || ia)).arr("pred_vidx", row["vidx"].ints()).s("trav", row["trav"].s)
-        .b("enc_same", enc_same).raw("pts", (kd || ia || natt >= 2) && d.ok ? kd_points(*d.pc) : "[]").raw("pred_pts", kd || ia ? kd_pred(row) : natt == 2 ? kd_pred(row, "ppos") : natt >= 3 ? kd_pred(row["cm"][natt - 3], "pos") : "[]")
+        .arr("vidx", eb_vidx(d, natt == 6 ? 1 : natt, kd || ia)).arr("pred_vidx", natt == 6 ? row["vidx2"].ints() : row["vidx"].ints()).s("trav", natt == 6 ? row["trav2"].s : row["trav"].s)
+        .b("enc_same", enc_same).raw("pts", (kd || ia || (natt >= 2 && natt <= 5)) && d.ok ? kd_points(*d.pc) : "[]").raw("pred_pts", kd || ia ? kd_pred(row) : natt == 2 ? kd_pred(row, "ppos") : (natt >= 3 && natt <= 5) ? kd_pred(row["cm"][natt - 3], "pos") : "[]")
         .i("np", d.ok ? (long long)d.pc->num_points() : 0).arr("faces", faces).raw("sv", d.ok ? struct_json(*d.pc, d.is_mesh) : "{\"np\":0,\"nf\":0,\"maxface\":-1,\"atts\":[]}").end();
     fflush(out.f);
   }
